@@ -7,6 +7,7 @@ computed visible names, each once; identical output under every permutation; nam
 of listings are retrievable by exact selector.
 """
 import os
+import posixpath
 import re
 
 import dirmodel
@@ -136,6 +137,17 @@ def run(ctx):
                     res.violation(f"C07:duplicate:{hname}", "an entry is listed more than once", inp, observed=local, required="each once", replay=rp)
                 if not umn and local != sorted(local):
                     res.violation("C07:unsorted:dir", "plain directory listing is not in name order", inp, observed=local, required=sorted(local), replay=rp)
+                # other spellings of the same directory (trailing slash, final '/.'): either refused, or the same members
+                for alt in ((d + "/", d + "/.") if d else ()):
+                    ra = pyg.request(reqs.build("gopher", alt), cfg)
+                    res.evaluations += 1
+                    if reqs.classify("gopher", ra.out)[0] == "notfound":
+                        continue
+                    la = [posixpath.normpath(e[2]) for e in parse_gopher(ra.out) if e[0] != "i" and e[3] == "srv.example"]
+                    la = [x for x in la if x.startswith(d + "/") and not (umn and "gamma" not in names and x == gsel)]
+                    if sorted(la) != sorted(vis):
+                        res.violation(f"C07:wrong-set:{hname}:alt-spelling", "a listing of the directory under another spelling of its selector lacks visible members",
+                                      dict(inp, selector=alt), observed=sorted(la), required=sorted(vis), replay=dict(rp, selector=alt))
                 # hidden entries remain retrievable by exact selector
                 for n in names:
                     sel = d + "/" + n
